@@ -11,6 +11,11 @@ from . import common
 
 MODULES = {
     "C04": "c04",
+    "C09": "c09",
+    "C19": "c19",
+    "C10": "c10",
+    "C11": "c11",
+    "C17": "c17",
 }
 
 
